@@ -80,3 +80,82 @@ Theorem C09_collect_keeps_retained : forall ops : list DS.Model.GCHist.hop,
   forall l, In l (DS.Model.GCHist.h_lists h) -> DS.Model.GCHist.snapshot_present (DS.Model.GCHist.h_store h) l.
 Proof. intros ops h. exact (proj2 (DS.Proofs.GCHistProofs.history_invariant ops)). Qed.
 Print Assumptions C09_collect_keeps_retained.
+
+(* ------------------------------------------------------------------ content of a retained snapshot (Model/GCView.v) *)
+(* `snap_view st l` is what a reader gets from the snapshot whose manifest list is l: the manifests its list names, the
+   data files each of them names, and the body of every such file.  After ANY sequential history, every retained snapshot
+   has such a content, and ANY further step -- a commit with any mix of appended, rewritten and dropped manifests (append,
+   delete_files, a transaction doing both, with or without an expiry), an expiry, the deletion of any snapshot (oldest,
+   intermediate, current), an open transaction, a planted orphan, file ageing, a collection with any location / grace /
+   clock / abandonment timeout / fault oracle -- leaves it exactly as it was.  No bound on the length of the history. *)
+Require Import DS.Model.GCHist DS.Model.GCView DS.Proofs.GCViewProofs.
+Theorem C09_retained_content_step : forall (ops : list hop) (op : hop) (l : String.string),
+  In l (h_lists (run_hist ops)) ->
+  exists v, snap_view (h_store (run_hist ops)) l = Some v /\ snap_view (h_store (run_hist (ops ++ [op]))) l = Some v.
+Proof. exact retained_view_step. Qed.
+Print Assumptions C09_retained_content_step.
+
+(* ... and so does any continuation along which the snapshot stays in the metadata ("for as long as it is retained") *)
+Theorem C09_retained_content_stable : forall (ops1 ops2 : list hop) (l : String.string),
+  In l (h_lists (run_hist ops1)) -> retained_along (run_hist ops1) ops2 l ->
+  exists v, snap_view (h_store (run_hist ops1)) l = Some v /\ snap_view (h_store (run_hist (ops1 ++ ops2))) l = Some v.
+Proof. exact retained_view_stable. Qed.
+Print Assumptions C09_retained_content_stable.
+
+(* ------------------------------------------------------------------ which manifest lists a collection opens
+   (Gen/GenGCRoots.v: the loop of GarbageCollector.collect over metadata.snapshots, REGENERATED from the source) *)
+(* The lists a collection opens are the (normalised) lists of EVERY retained snapshot that names one.  The parent link and
+   the operation label of a snapshot play no part: a snapshot labelled "append" may have dropped manifests of its parent
+   (one transaction deleting and appending), and a parent link may skip removed snapshots (delete_snapshot repoints). *)
+Require Import DS.Model.SnapRec DS.Gen.GenNorm DS.Gen.GenGCRoots DS.Proofs.GCRootsProofs.
+Theorem C09_collect_roots_every_snapshot : forall (tp : String.string) (snaps : list snaprec) (k : String.string),
+  In k (gc_list_roots tp snaps) <->
+  exists s, In s snaps /\ DS.Model.PyStr.nonempty (sr_manifest_list s) = true /\ k = normalize_path tp (sr_manifest_list s).
+Proof. exact roots_every_snapshot. Qed.
+Print Assumptions C09_collect_roots_every_snapshot.
+
+Theorem C09_collect_roots_ignore_lineage : forall (tp : String.string) (a b : list snaprec),
+  map sr_manifest_list a = map sr_manifest_list b -> forall k, In k (gc_list_roots tp a) <-> In k (gc_list_roots tp b).
+Proof. exact roots_only_lists. Qed.
+Print Assumptions C09_collect_roots_ignore_lineage.
+
+(* The collector model of C05 (over which C09_collect_keeps_retained and the two content theorems are proved) opens
+   exactly the regenerated roots, under every fault oracle (unless it stopped at the marker listing, before the metadata). *)
+Theorem C09_collect_opens_roots : forall (tp : String.string) (grace now timeout : Z) (o : DS.Model.GC.oracle) (snaps : list snaprec) (st : DS.Model.GC.store),
+  let r := DS.Model.GC.gc_run tp grace now timeout o (map sr_manifest_list snaps) st in
+  DS.Model.GC.r_out r <> DS.Model.GC.Aborted DS.Model.GC.PhMarkers ->
+  forall k, In k (DS.Model.GC.r_reach_lists r) <-> In k (gc_list_roots tp snaps).
+Proof. exact collect_opens_roots. Qed.
+Print Assumptions C09_collect_opens_roots.
+
+(* Non-vacuity: append a; append b; ONE commit that drops a's manifest and appends c (a transaction deleting a and appending
+   c: recorded as an append); a pure delete of b; append d; deletion of the intermediate delete snapshot 4; a grace-0
+   collection.  Snapshots 1, 2, 3, 5 are retained; snapshot 1 still reads data/a through m1 although neither of its
+   successors lists m1; only the removed snapshot's list is gone. *)
+From Coq Require Import String.
+Open Scope string_scope.
+Definition c09_ops : list hop := [
+  HCommit 1 [("a", 1000)] [("m1", ["/data/a"], 1000)] [] "l1" 1000 None;
+  HCommit 2 [("b", 1000)] [("m2", ["data/b"], 1000)] ["metadata/manifests/m1"] "l2" 1000 None;
+  HCommit 3 [("c", 1000)] [("m3", ["data/c"], 1000)] ["metadata/manifests/m2"] "l3" 1000 None;
+  HCommit 4 [] [] ["metadata/manifests/m3"] "l4" 1000 None;
+  HCommit 5 [("d", 1000)] [("m5", ["data/d"], 1000)] ["metadata/manifests/m3"] "l5" 1000 None;
+  HDeleteSnapshot 4;
+  HCollect "tbl" 0 1000000 86400000 DS.Model.GC.no_faults ].
+Example C09_content_nonvacuous :
+  map fst (h_snaps (run_hist c09_ops)) = [1; 2; 3; 5]
+  /\ snap_files (h_store (run_hist (firstn 1 c09_ops))) "metadata/manifests/l1" = Some [("metadata/manifests/m1", ["data/a"])]
+  /\ snap_files (h_store (run_hist c09_ops)) "metadata/manifests/l1" = Some [("metadata/manifests/m1", ["data/a"])]
+  /\ snap_files (h_store (run_hist c09_ops)) "metadata/manifests/l3" = Some [("metadata/manifests/m2", ["data/b"]); ("metadata/manifests/m3", ["data/c"])]
+  /\ snap_files (h_store (run_hist c09_ops)) "metadata/manifests/l5" = Some [("metadata/manifests/m3", ["data/c"]); ("metadata/manifests/m5", ["data/d"])]
+  /\ has_key "metadata/manifests/l4" (h_store (run_hist c09_ops)) = false
+  /\ has_key "metadata/manifests/l4" (h_store (run_hist (firstn 6 c09_ops))) = true
+  /\ retained_along (run_hist (firstn 1 c09_ops)) (skipn 1 c09_ops) "metadata/manifests/l1".
+Proof. vm_compute. repeat split; auto 10. Qed.
+
+(* ... and the regenerated roots contain the list of a snapshot that is the parent of an "append" *)
+Example C09_roots_nonvacuous :
+  gc_list_roots "tbl" [mkSnap 1 None "append" "/metadata/manifests/l1"; mkSnap 3 (Some 1) "append" "metadata/manifests/l3";
+                       mkSnap 5 (Some 3) "append" ""; mkSnap 6 (Some 5) "delete" "metadata/manifests/l3"]
+  = ["metadata/manifests/l1"; "metadata/manifests/l3"].
+Proof. vm_compute. reflexivity. Qed.
